@@ -48,6 +48,8 @@ class Owner:
 
 LINK_NAMES = ("value", "child", "children", "table", "group", "mchild", "mlist", "mdef", "tag", "trait_added", "extra")
 OPT = "<trait('extra', optional=True)>"
+REQ = "<trait('extra')>"          # a REQUIRED named observer of a trait that was added with add_trait
+SPECIAL_TEXTS = (OPT, REQ)
 
 
 def population(objs):
@@ -153,6 +155,8 @@ OPT_OP = st.one_of(
     st.tuples(st.just("add_opt"), st.integers(0, 2)), st.tuples(st.just("add_opt"), st.integers(0, 2)),
     st.tuples(st.just("rem_opt"), st.integers(0, 2)), st.tuples(st.just("rem_opt"), st.integers(0, 2)),
     st.tuples(st.just("add_trait_root")), st.tuples(st.just("set_extra")), st.tuples(st.just("readd_trait_root")),
+    st.tuples(st.just("add_again_root")), st.tuples(st.just("add_req"), st.integers(0, 2)), st.tuples(st.just("rem_req"), st.integers(0, 2)),
+    st.tuples(st.just("add_trait_root")), st.tuples(st.just("set_extra")),
     st.tuples(st.just("add"), st.integers(0, 2), st.integers(0, 2), st.booleans()), st.tuples(st.just("rem_live"), st.integers(0, 5)),
     st.tuples(st.just("gc")), st.tuples(st.just("kill_owner")),
 ).map(list)
@@ -196,13 +200,36 @@ def hist_run(case, ctx):
                 ctx.exclude("self-referential graph (C08/F16 territory)")
                 break
             if k == "rem_live":
-                live = sorted(kk for kk, c in counts.items() if c > 0 and kk[1] != OPT)
+                live = sorted(kk for kk, c in counts.items() if c > 0 and kk[1] not in SPECIAL_TEXTS)
                 if not live:
                     continue
                 hi, text_, api = live[op[1] % len(live)]
                 op = ["rem", hi, texts.index(text_), api]
                 k = "rem"
-            if k in ("add_opt", "rem_opt"):
+            if k in ("add_req", "rem_req"):
+                from traits.observation.api import trait as _trait
+                hi = op[1]
+                if (hi == 2 and not owner_alive) or root.trait("extra") is None:
+                    continue
+                key = (hi, REQ, True)
+                if k == "add_req":
+                    root.observe(handlers[hi], _trait("extra"))
+                    counts[key] = counts.get(key, 0) + 1
+                    n_reg += 1
+                    interesting = True
+                    ctx.label("required-registration-on-added-trait")
+                elif counts.get(key, 0) > 0:
+                    try:
+                        root.observe(handlers[hi], _trait("extra"), remove=True)
+                    except Exception as e:
+                        ctx.fail("remove/raised", "removing the registration on the added trait raised %r" % (e,))
+                    counts[key] -= 1
+            elif k == "add_again_root":
+                if root.trait("extra") is not None:
+                    root.add_trait("extra", Int(0))          # a second add_trait for the same, already added, name
+                    ctx.label("added-trait-added-again")
+                    interesting = True
+            elif k in ("add_opt", "rem_opt"):
                 from traits.observation.api import trait as _trait
                 hi = op[1]
                 if hi == 2 and not owner_alive:
@@ -236,14 +263,15 @@ def hist_run(case, ctx):
                     root.extra += 1
                     via_expr = set()       # `*` (anytrait) registrations match the added trait too
                     for (h2, text2, _a2), c2 in counts.items():
-                        if c2 > 0 and text2 != OPT:
+                        if c2 > 0 and text2 not in SPECIAL_TEXTS:
                             try:
                                 if G.Reach(root, exprs[texts.index(text2)]).notify.get(("t", id(root), "extra")):
                                     via_expr.add(h2)
                             except ValueError:
                                 pass
                     for hi, tag in enumerate(tags):
-                        exp = 1 if (counts.get((hi, OPT, True), 0) > 0 or hi in via_expr) and (hi != 2 or owner_alive) else 0
+                        exp = 1 if (counts.get((hi, OPT, True), 0) > 0 or counts.get((hi, REQ, True), 0) > 0 or hi in via_expr) \
+                            and (hi != 2 or owner_alive) else 0
                         if log.count(tag) != exp:
                             ctx.fail("probe/optional-%s" % ("missed" if exp else "unexpected"),
                                      "changing the later-added optional trait called handler %s %d time(s), expected %d; registrations %r"
@@ -388,7 +416,7 @@ def hist_run(case, ctx):
             # ---- probe every pool object
             reaches = {}
             for (hi, text, _api), c in counts.items():
-                if c > 0 and text != OPT:
+                if c > 0 and text not in SPECIAL_TEXTS:
                     ei = texts.index(text)
                     r = G.Reach(root, exprs[ei])
                     for n in pool:
@@ -560,12 +588,93 @@ def fail_run(case, ctx):
             pop_exception_handler()
 
 
+def failrem_run(case, ctx):
+    """A REMOVAL that raises part-way: register on the healthy graph, put an object lacking the next trait at walk
+    position k (the mutation itself reports the maintainer's error), then observe(..., remove=True) raises and must
+    leave every notifier population and every handler call exactly as it was just before the attempt."""
+    paths = case["exprs"][0]
+    text = G.to_text(paths)
+    pool, link = make_pool(case)
+    if self_referential(pool[0], [paths]):
+        ctx.exclude("self-referential graph")
+        return
+    try:
+        G.Reach(pool[0], paths)
+    except ValueError:
+        return
+    npos = len(walk_positions(pool[0], paths))
+    if npos == 0:
+        return
+    ctx.evaluations -= 1
+    for k in range(npos):
+        ctx.add_evals(1)
+        pool, link = make_pool(case)
+        root = pool[0]
+        o, l, pi = walk_positions(root, paths)[k]
+        bad = Bare()
+        log = []
+        h = lambda e: log.append("h")
+        push_exception_handler(handler=lambda ev: None, reraise_exceptions=True)
+        try:
+            try:
+                target = G.to_expr(paths) if case["api"] else text
+            except ValueError:
+                target = text
+            try:
+                root.observe(h, target)
+            except ValueError:
+                continue
+            if case["preregistered"]:
+                root.observe(h, target)          # a second, counted registration of the same handler
+            try:
+                link(o, l, bad)
+            except Exception:
+                pass                             # the maintainer cannot hook the bad object; the mutation itself took place
+            try:
+                G.Reach(root, paths)
+                continue                         # the bad object is not reached by a step that needs a trait
+            except ValueError:
+                pass
+            before = population(pool)
+            probes_before = []
+            for n in pool:
+                del log[:]
+                n.value += 1
+                probes_before.append(len(log))
+            try:
+                root.observe(h, target, remove=True)
+                ctx.label("removal-with-bad-object-succeeds")
+                continue
+            except (ValueError, NotifierNotFound):
+                pass
+            except Exception as e:
+                ctx.fail("atomic/remove/exception-class", "%r: removal with a bad object at walk position %d raised %r" % (text, k, e))
+            ctx.label("failing-removal-at-k=%d" % min(k, 5))
+            ctx.nontrivial(key=[case, "rem", k])
+            sig = "/multi-graph" if len(paths) > 1 else "/linear"
+            after = population(pool)
+            if after != before:
+                ctx.fail("atomic/failing-remove" + sig, "%r (api=%s): observe(remove=True) raised (bad object behind %r.%s, walk "
+                         "position %d/%d) but changed notifier populations: %r"
+                         % (text, case["api"], o, l, k, npos, {kk: (before.get(kk), v) for kk, v in after.items() if before.get(kk) != v}))
+            for n, pb in zip(pool, probes_before):
+                del log[:]
+                n.value += 1
+                if len(log) != pb:
+                    ctx.fail("atomic/failing-remove" + sig, "%r: after the failing removal changing N%d.value calls the handler %d "
+                             "time(s), before the attempt %d" % (text, n._nid, len(log), pb))
+        finally:
+            pop_exception_handler()
+
+
 def stages(tier):
     return [
+        {"name": "failrem", "kind": "hyp", "strategy": fail_strategy, "run": failrem_run,
+         "examples": {"quick": 1500, "thorough": 60000}, "shards": 16},
         {"name": "hist", "kind": "hyp", "strategy": hist_strategy, "run": hist_run,
          "examples": {"quick": 4000, "thorough": 120000}, "shards": 16},
         {"name": "optional", "kind": "hyp", "strategy": opt_strategy, "run": hist_run,
-         "examples": {"quick": 1500, "thorough": 40000}, "shards": 16},
+         "examples": {"quick": 4000, "thorough": 60000}, "shards": 16},
         {"name": "fail", "kind": "hyp", "strategy": fail_strategy, "run": fail_run,
          "examples": {"quick": 2000, "thorough": 80000}, "shards": 16},
     ]
